@@ -598,8 +598,8 @@ fn kind_of(t: &Tables) -> (String, Option<ind::CffFacts>) {
     } else if let Some(c) = t.get("CFF ") {
         let f = ind::cff_facts(c);
         (if f.as_ref().map(|f| f.cid).unwrap_or(false) { "cid".into() } else { "cff".into() }, f)
-    } else if t.has("CFF2") {
-        ("cff2".into(), None)
+    } else if let Some(c) = t.get("CFF2") {
+        ("cff2".into(), ind::cff2_facts(c).map(|f| f.0))
     } else {
         ("none".into(), None)
     }
@@ -749,10 +749,15 @@ fn record(seed: u64, tier: &str, out: &str) {
         if src.n == 0 {
             continue;
         }
-        let seen = per_kind_seen.entry(s.kind.clone()).or_default();
+        // the ~200 fonts of tests/aots share one glyph set (100 glyphs, one long metric): a seeded handful of them
+        let class = if s.label.starts_with("aots/") { format!("aots-{}", s.kind) } else { s.kind.clone() };
+        let seen = per_kind_seen.entry(class.clone()).or_default();
         *seen += 1;
-        // quick: every CFF / CFF2 font, a seeded sample of the (many) glyf fonts
-        if quick && s.kind == "glyf" && *seen > 26 {
+        if class.starts_with("aots-") && *seen > (if quick { 3 } else { 10 }) {
+            continue;
+        }
+        // quick: every other CFF / CFF2 font, a seeded sample of the (many) glyf fonts
+        if quick && class == "glyf" && *seen > 26 {
             continue;
         }
         rec.bump(&format!("fonts:{}", s.kind), 1);
